@@ -38,7 +38,7 @@ struct C14 : Harness {
                     if (v == 0) { int len = *rc::gen::element(0, 1, bs - 1, maxb * bs + 1, maxb * bs + bs, huge); p.push_back(mkop(opn(kind, kf)).set("s", 0).set("inv", 1).set("key", *gbytes(std::min<size_t>((unsigned)len, 3 * bs + 16))).set("len", len)); }
                     else if (v == 1) p.push_back(mkop(opn(kind, kf)).set("s", 0).set("inv", 1).setnull("key").set("len", bs));
                     else if (v == 2) p.push_back(mkop(opn(kind, kf)).set("s", -1).set("inv", 1).set("key", *gbytes(bs)).set("len", bs));
-                    else if (tk && v == 3) { int len = *rc::gen::element(0, bs + 1, 2 * bs, huge); p.push_back(mkop(opn(kind, "set_tweak")).set("s", 0).set("inv", 1).set("tweak", *gbytes(std::min<size_t>((unsigned)len, 2 * bs))).set("len", len)); }
+                    else if (tk && v == 3) { int len = *rc::gen::element(0, bs + 1, 2 * bs, huge); Op t = mkop(opn(kind, "set_tweak")); t.set("s", 0).set("inv", 1); if (*chance(25)) t.setnull("tweak"); else t.set("tweak", *gbytes(std::min<size_t>((unsigned)len, 2 * bs))); t.set("len", len); p.push_back(t); }
                     else if (tk) p.push_back(mkop(opn(kind, "set_tweak")).set("s", -1).set("inv", 1).set("tweak", *gbytes(bs)).set("len", bs));
                     else { int len = *rc::gen::element(0, bs - 1, maxb * bs + 1, huge); p.push_back(mkop(opn(kind, kf)).set("s", 0).set("inv", 1).set("key", *gbytes(std::min<size_t>((unsigned)len, 3 * bs + 16))).set("len", len)); }
                 }
